@@ -24,10 +24,10 @@ ASSUMPTIONS = [
     "branching is 1-3 for depth <= 6 and 1 beyond (value size, not depth, is bounded)",
     "termination is decided on logical steps (sys.monitoring PY_START budget), wall-clock only as watchdog",
 ]
-PLAN = {"quick": dict(topologies=1600, D=12), "thorough": dict(topologies=6000, D=150)}
+PLAN = {"quick": dict(topologies=1600, D=12), "thorough": dict(topologies=10000, D=150)}
 WATCHDOG_S = {"thorough": 10000}
 FLOORS = {"quick": {"topologies_with_wrapped_edges": 300, "retries_after_rejection": 15000, "constructions": 10000, "depth_values_checked": 60000, "values_at_max_depth": 8000, "codec_roundtrips": 50000, "topologies_with_direct_edges": 150, "hybrid_inputs": 2500, "alias_depth_values_checked": 1200},
-          "thorough": {"topologies_with_wrapped_edges": 1200, "retries_after_rejection": 70000, "constructions": 40000, "depth_values_checked": 250000, "values_at_max_depth": 35000, "codec_roundtrips": 200000, "topologies_with_direct_edges": 500, "hybrid_inputs": 15000, "alias_depth_values_checked": 5000}}
+          "thorough": {"topologies_with_wrapped_edges": 2000, "retries_after_rejection": 110000, "constructions": 65000, "depth_values_checked": 400000, "values_at_max_depth": 55000, "codec_roundtrips": 330000, "topologies_with_direct_edges": 800, "hybrid_inputs": 25000, "alias_depth_values_checked": 8000}}
 
 
 def is_cyclic(n, es):
